@@ -8,7 +8,7 @@ CONSTANTS
   NPeers = 1
   BlockStores <- StoresLight
   ClearOnFail = TRUE
-  FreshDecode = FALSE
+  FreshDecode = TRUE
   PutPanics = FALSE
   AttemptTimeouts = TRUE
   CanonDecode = FALSE
